@@ -441,7 +441,11 @@ def string_escape(ctx):
         reports.error,
         "invalid-escape",
         (ctx_start, ctx, "A letter is expected after a backslash '\\' in a string")
-    )).lower()
+    ))
+    if char is None:
+        # The error has been reported: the text ends right after the backslash
+        return ""
+    char = char.lower()
 
     if char == "n":
         return "\n"
@@ -459,6 +463,8 @@ def string_escape(ctx):
             "invalid-escape",
             (ctx_start, ctx, "Two hexadecimal digits are expected after '\\x' in a string")
         ))
+        if num is None:
+            return ""
         return chr(int(num, 16))
     else:
         reports.error(
